@@ -69,12 +69,23 @@ class UT(pyrx.ClassTranslator):
         self.module_funcs = dict(module_funcs)   # python name -> coq term (applied to args)
         self.fixed = dict(fixed or {})           # name -> bool
         self.ident_calls = set(ident_calls)      # unparse()d callee texts that are identity
+        self.closure_map = {}                    # nested def name -> coq term (applied to args)
 
     # ---- expressions
     def expr(self, node, env):
+        # (x + 0j).real : real part of the complex function (Lib/NumpySem.atanh_R)
+        if isinstance(node, ast.Attribute) and node.attr == "real":
+            return self.expr(node.value, env)
+        if isinstance(node, ast.BinOp) and isinstance(node.op, ast.Add) and \
+                isinstance(node.right, ast.Constant) and \
+                isinstance(node.right.value, complex) and node.right.value == 0:
+            return self.expr(node.left, env)
         if isinstance(node, ast.Call):
             f = node.func
             txt = ast.unparse(f)
+            if isinstance(f, ast.Name) and f.id in self.closure_map and not node.keywords:
+                return "(%s %s)" % (self.closure_map[f.id],
+                                    " ".join(self.expr(a, env) for a in node.args))
             if txt in self.ident_calls and len(node.args) == 1 and not node.keywords:
                 return self.expr(node.args[0], env)
             if isinstance(f, ast.Name) and f.id in self.module_funcs and not node.keywords:
@@ -159,7 +170,7 @@ EOM_EXT = [
 ]
 
 GRID_ATTRS = ["tailLengthInside", "tailLengthOutside", "wallThickness", "ratioPointsWall",
-              "smoothing", "wallCenter", "aIn", "aOut"]
+              "smoothing", "wallCenter", "aIn", "aOut", "momentumFalloffT"]
 
 
 def generate_formulas(src):
@@ -208,6 +219,15 @@ def generate_formulas(src):
     d = gr.method("_updateParameters", coq_name="gr_updateParameters")
     out.append(gr.header(extra_vars=[("gr_unit", "unit")]))
     out.append(d)
+    # the position / momentum maps: nested closures term1..term5, totalMapping, then the body
+    for k in range(1, 6):
+        d, _ = gr.closure("decompactify", "term%d" % k, "gr_term%d" % k)
+        out.append(d)
+        gr.closure_map["term%d" % k] = "gr_term%d e s" % k
+    d, _ = gr.closure("decompactify", "totalMapping", "gr_totalMapping")
+    out.append(d)
+    gr.closure_map["totalMapping"] = "gr_totalMapping e s"
+    out.append(gr.method("decompactify", coq_name="gr_decompactify"))
     spans.update({k: ("grid3Scales.py",) + tuple(v) for k, v in gr.spans.items()})
     asserts["grid3Scales"] = gr.asserts
     return "\n".join(out) + "\n", spans, asserts
